@@ -1,7 +1,7 @@
 (* CCase.v — boolean comparisons and case evaluators used by the generated T2 case files of
    C03 / C06 / C07 (tools/cside.py).  Nothing here is used by a theorem. *)
 From Coq Require Import ZArith List Bool.
-From BP Require Import Bits Schema Spec CMem CRt.
+From BP Require Import Bits Schema Spec CMem CRt CBeExact.
 From BPGen Require Import GenC.
 Import ListNotations.
 Open Scope Z_scope.
@@ -152,3 +152,7 @@ Definition store_case_h (E : endian) (t : ty) (v : val) (o : obj) : Z :=
 
 Definition dec_val_case_h (E : endian) (t : ty) (v : val) (obs : obj) (clean : bool) : Z :=
   if obj_eqb (store E (norm t) v) obs && clean then 0 else 2.
+
+(* the schema is in the class on which the BE build does not depend on the host byte order
+   (CBeExact.call_processor_be): only then is a run on x86 with big-endian storage an observation of (BE,BE) *)
+Definition bex_case (t : ty) : Z := if dexact (render (norm t)) then 0 else 4.
